@@ -204,6 +204,10 @@ def problems(
                         if hermitian:
                             mask[y][x] = 1
             selection["masks"][str(b)] = mask
+    # "almost equal" class: levels that are degenerate for the library (|dE| < atol = 1e-12) without being bit-identical,
+    # as eigenvalues coming out of a numerical diagonalisation are: the second and later members of every degenerate
+    # group are handed over 2^-44 (5.7e-14) higher.  The oracles keep treating them as one level.
+    ulp = bool(rep != "sympy" and not int_dtype and not far and draw(st.integers(0, 5)) == 0)
     more = {}
     if forms:
         # how the problem is handed to block_diagonalize: whole matrices + subspace_indices ("indices"), nested lists of
@@ -226,6 +230,7 @@ def problems(
         "K": K,
         "ref_shift": 4096 * 32 if far else 0,
         "int_dtype": bool(int_dtype),
+        "ulp": ulp,
     }
 
 
@@ -309,6 +314,13 @@ def library_input(problem):
             ham[order_key(key)] = sympy.Matrix(N, N, lambda i, j: sympy.Rational(M[i][j][0], den) + sympy.I * sympy.Rational(M[i][j][1], den))
     else:
         Ev = np.array(energies(problem))
+        if problem.get("ulp"):
+            seen_levels = set()
+            Ev = Ev.copy()
+            for q, lev in enumerate(zip(problem["assign"], problem["energy"], problem["eimag"])):
+                if lev in seen_levels:
+                    Ev[q] += 2.0**-44
+                seen_levels.add(lev)
         as_int = bool(problem.get("int_dtype")) and not cplx_e and den == 1 and ed == 1
         H0 = np.diag(Ev)
         if as_int:
